@@ -42,24 +42,25 @@ Definition corr (c : case) : N :=
   | Some (raw, dq, o) =>
       match probe_expected raw dq, o with
       | Some e, IOk a => b2n (bytes_eqb e a)
-      | None, IOk _ => 0
-      | None, _ => 1
+      | None, _ => 2              (* an escape the reader model does not cover, or no closing quote *)
       | Some _, _ => 0
       end
   end.
 
-(* known class F12: a quoted string that contains its own quote character (printed escaped) *)
-Fixpoint has_escaped_quote (x : list N) : bool :=
+(* known class F36: a private-use character (printed as a hex escape WITHOUT a terminating
+   space) directly followed by a hex digit or a space: since the reader decodes escapes
+   (rsass 4637bd2) the following character is taken into / eaten by the escape.
+   c_src is UTF-8: U+E000..U+F8FF are EE xx xx and EF 80..A3 xx. *)
+Definition hexish (c : N) : bool :=
+  is_ascii_digit c || ((97 <=? c) && (c <=? 102)) || ((65 <=? c) && (c <=? 70)) || (c =? 32).
+Fixpoint pua_then_hex (x : list N) : bool :=
   match x with
-  | 92 :: ((34 :: _) as r) | 92 :: ((39 :: _) as r) => true
-  | _ :: r => has_escaped_quote r
+  | b0 :: ((b1 :: _ :: n :: _) as r) =>
+      (((b0 =? 238) || ((b0 =? 239) && (b1 <=? 163))) && (128 <=? b1) && (hexish n || (n =? 92))) || pua_then_hex r
+  | _ :: r => pua_then_hex r
   | [] => false
   end.
-Definition known_quote (c : case) : bool :=
-  match c_out1 c with IOk a => false | _ => false end
-  || has_escaped_quote (c_src c)
-  || (* a quote of the other kind inside a string makes rsass print it escaped or re-quoted *)
-     false.
+Definition known_quote (c : case) : bool := pua_then_hex (c_src c).
 
 (* known class: an identifier with a hex escape for a Latin-1 symbol that is not a letter
    (U+00A1..U+00BF without the letters ª µ º, and × ÷): rsass prints the character raw,
@@ -82,5 +83,18 @@ Fixpoint has_symbol_escape (x : list N) : bool :=
   | [] => false
   end.
 
+(* known class F37: a hex escape of a control character inside the source: rsass prints it as
+   `\a` + space only where the space is needed, the plain-CSS reader (which now decodes and
+   re-normalises escapes) always puts the space: `"\a*/"` reads back as `"\a */"` - the same
+   string, another text *)
+Definition control_value (v : N) : bool := ((1 <=? v) && (v <? 32)) || ((127 <=? v) && (v <=? 159)).
+Fixpoint has_control_escape (x : list N) : bool :=
+  match x with
+  | 92 :: r => (match r with c :: _ => match hexval c with Some _ => control_value (read_hex r 0 6) | None => false end | [] => false end)
+               || has_control_escape r
+  | _ :: r => has_control_escape r
+  | [] => false
+  end.
+
 Definition run (c : case) : list N :=
-  [ corr c; b2n (clause_roundtrip c); b2n (known_quote c); b2n (has_symbol_escape (c_src c)) ].
+  [ corr c; b2n (clause_roundtrip c); b2n (known_quote c); b2n (has_symbol_escape (c_src c)); b2n (has_control_escape (c_src c)) ].
